@@ -9,7 +9,7 @@ OUT=/verif/seeded/$ID
 mkdir -p /tmp/conf $OUT
 git -C /repo worktree remove --force $W 2>/dev/null
 git -C /repo worktree add -q --detach $W HEAD || exit 2
-export CARGO_TARGET_DIR=/tmp/conf/target   # shared between confirmations (same sources apart from the patch)
+export CARGO_TARGET_DIR=${CONF_TARGET:-/tmp/conf/target}   # shared between confirmations (same sources apart from the patch)
 summ() { grep -E "^test .* \.\.\. (ok|FAILED|ignored)" | sed 's/ \.\.\. /=/' | sort | uniq -c | md5sum | cut -c1-12; }
 cd $W
 HEADREV=$(git -C /repo rev-parse --short HEAD)
